@@ -65,6 +65,9 @@ META["rule"] += (
 META["rule"] += (
     " " + 'Added after the seventh round: hub-and-spoke components of 21 .. 40 nodes, every third network.')
 
+META["rule"] += (
+    " " + 'Added after the eighth round: core-periphery networks (the all-neighbour core numbered first, one or two chunks long); pool calls with three targets and with none.')
+
 MEASURES = [
     ("newman_betweenness", {}),
     ("nsi_newman_betweenness", {}),
@@ -179,6 +182,24 @@ def master_loop_cases(ctx):
                     A[i, j] = A[j, i] = 1
             sizes = [nh]
             ctx.count("hub_and_spoke_networks")
+        if nets % 6 == 1:
+            # a core whose nodes are linked to every node, numbered first
+            # (the periphery only has a few links of its own): the leading
+            # chunks of the node range then consist of such nodes only
+            nh = int(r.choice([12, 14, 16, 18, 20, 24, 30]))
+            c = -(-nh // (-(-nh // 10)))          # one chunk of the range
+            if nh == 30 and r.random() < 0.5:
+                c *= 2
+            A = np.zeros((nh, nh), dtype=np.int8)
+            A[:c, :] = 1
+            A[:, :c] = 1
+            np.fill_diagonal(A, 0)
+            for _ in range(int(r.integers(0, 4))):
+                i, j = (int(v) for v in r.integers(c, nh, 2))
+                if i != j:
+                    A[i, j] = A[j, i] = 1
+            sizes = [nh]
+            ctx.count("core_periphery_networks")
         n = len(A)
         directed = (nets % 5 == 2)
         if directed:
@@ -529,7 +550,9 @@ def pool_cases(ctx):
                     {"sources": src},
                     # every option of the public method, distributed or not
                     {"nsi": False}, {"nsi": False, "sources": src,
-                                     "targets": tgt}]
+                                     "targets": tgt},
+                    # fewer targets than workers; none at all
+                    {"targets": tgt[:3]}, {"targets": []}]
         d = tempfile.mkdtemp(dir=os.environ.get("PVM_TMP", "."))
         script = os.path.join(d, "pool_case.py")
         with open(script, "w") as fh:
